@@ -2,7 +2,9 @@
 From Goat Require Import Base.Prelude Model.BtcParams Cases.Common.
 
 Definition ptuple : Type := (N * N * N * N)%type.               (* conf, min, rate, cap *)
-Definition pcase : Type := (ptuple * list (list (N * N) * list N * list N) * list ptuple)%type.
+(* initial parameters, request lists, probes of genesis validation; observed: parameters after every list, then
+   for every probe (1,0,0,0) when the real Params.Validate accepts it and (0,0,0,0) otherwise *)
+Definition pcase : Type := (ptuple * list (list (N * N) * list N * list N) * list ptuple * list ptuple)%type.
 Definition to_bp (t : ptuple) : bparams := let '(c, m, r, k) := t in mkBP c m r k.
 Definition of_bp (p : bparams) : ptuple := (bp_conf p, bp_min p, bp_rate p, bp_cap p).
 Fixpoint p_scan (p : bparams) (h : list (list (N * N) * list N * list N)) : list ptuple :=
@@ -10,8 +12,10 @@ Fixpoint p_scan (p : bparams) (h : list (list (N * N) * list N * list N)) : list
   | [] => []
   | (t, c, m) :: r => let p' := apply_preqs p (mkPR t c m) in of_bp p' :: p_scan p' r
   end.
-Definition p_model (c : pcase) : list ptuple := let '(i, h, _) := c in p_scan (to_bp i) h.
-Definition p_observed (c : pcase) : list ptuple := let '(_, _, o) := c in o.
+Definition p_model (c : pcase) : list ptuple :=
+  let '(i, h, probes, _) := c in
+  p_scan (to_bp i) h ++ map (fun t => ((if params_validate (to_bp t) then 1 else 0), 0, 0, 0)) probes.
+Definition p_observed (c : pcase) : list ptuple := let '(_, _, _, o) := c in o.
 Definition ptuple_eqb (a b : ptuple) : bool :=
   let '(a1, a2, a3, a4) := a in let '(b1, b2, b3, b4) := b in
   (a1 =? b1) && (a2 =? b2) && (a3 =? b3) && (a4 =? b4).
